@@ -68,11 +68,16 @@ def gen_cfg(c, depth, prefix, pairwc=True, freewd=True, maxdel=1):
             "INVARIANTS Emit Sorted NonOverlapping WithinFile\nCHECK_DEADLOCK FALSE\n")
 
 
-def write_hists(res, path, limit=None):
+def write_hists(res, path, limit=None, keep=1.0, seed=1):
+    """keep < 1: seeded subsample (simulation prints every sibling of the last step)."""
+    import random
+    rnd = random.Random(seed)
     n = 0
     samples = []
     with open(path, "w") as f:
         for h in res.hists():
+            if keep < 1.0 and rnd.random() >= keep:
+                continue
             f.write(json.dumps(h, separators=(",", ":")) + "\n")
             if n < 1:
                 samples.append(h)
@@ -299,10 +304,11 @@ def run(ctx):
            "  MaxIdx = %d\n" % (4 if thorough else 3))
     if r.error:
         raise vlib.Inconclusive("IndexSearchMC: %s" % r.error)
+    design[-1]["indexes_checked"] = next(iter(r.tagged("INDEXES")), None)
     AS_IS = "BackwardsFailsOutsideWindow"
     runs = [("mc_w1", consts(3, 1, maxwrite=1, spans="{0, 1}", anyfile=True, maxfiles=2, maxfilesize=3), AS_IS),
             ("mc_w1del", consts(3, 1, maxwrite=1, spans="{1}", deletes=True, maxfiles=2, maxfilesize=3), AS_IS),
-            ("mc_w2", consts(2, 2, maxwrite=1, spans="{1}", anyfile=True, maxptrs=2, maxfilesize=3), AS_IS),
+            ("mc_w2", consts(2, 2, maxwrite=1, spans="{1}", maxptrs=2, maxfilesize=3), AS_IS),
             ("mc_fixed", consts(3, 1, spans="{0, 1}", fix=True, maxptrs=2, maxfiles=2), "BackwardsFails")]
     if thorough:
         runs += [("mc_w1big", consts(3, 1, spans="{0, 1}", anyfile=True), AS_IS),
@@ -325,7 +331,7 @@ def run(ctx):
     exhaustive = True
 
     def gen_and_replay(name, T, c, depth, prefix, pairwc=True, freewd=True, maxdel=1, simulate=None, simdepth=None,
-                       **rp):
+                       keep=1.0, **rp):
         nonlocal exhaustive
         kw = {}
         if simulate:
@@ -335,7 +341,7 @@ def run(ctx):
         if r.violated:
             ctx.notes.append("gen %s: design invariant %s violated" % (name, r.violated))
         hp = ctx.path(name + ".ndjson")
-        n, smp = write_hists(r, hp)
+        n, smp = write_hists(r, hp, keep=keep, seed=ctx.seed)
         if n == 0:
             raise vlib.Inconclusive("no histories generated by %s" % name)
         if smp and len(samples) < 3:
@@ -352,12 +358,17 @@ def run(ctx):
             pass
 
     if not thorough:
-        gen_and_replay("g_free", 3, consts(3, 2, spans="{1}"), 4, 0, vary=True)
+        gen_and_replay("g_free", 3, consts(3, 2, maxwrite=1, spans="{1, 2}"), 4, 0, vary=True)
+        gen_and_replay("g_free2", 3, consts(3, 2, spans="{1}"), 4, 0, vary=True)
         gen_and_replay("g_flow3", 6, consts(6, 2, spans="{1}"), 7, 2, freewd=False, vary=True)
         gen_and_replay("g_roll", 4, consts(4, 1, spans="{2}"), 7, 3, freewd=False, vary=True)
         gen_and_replay("g_del", 5, consts(5, 1, spans="{1}", deletes=True), 5, 4, freewd=False, vary=True)
+        exhaustive_n = sum(g["histories"] for g in gens)
+        gen_and_replay("s_any", 5, consts(5, 3, spans="{0, 1, 2, 3}", anyfile=True), 9, 0, simulate="num=1200",
+                       simdepth=10, keep=0.2, vary=True)
     else:
-        gen_and_replay("g_free", 3, consts(3, 2, spans="{0, 1}"), 4, 0, vary=True)
+        gen_and_replay("g_free", 3, consts(3, 2, spans="{0, 1, 2}"), 4, 0, vary=True)
+        gen_and_replay("g_free4", 4, consts(4, 2, maxwrite=1, spans="{2, 3}"), 4, 0, vary=True)
         gen_and_replay("g_free5", 5, consts(5, 2, spans="{1}"), 6, 1, vary=True)
         gen_and_replay("g_flow2", 5, consts(5, 2, spans="{1}"), 7, 1, freewd=False, vary=True)
         gen_and_replay("g_flow3", 6, consts(6, 2, spans="{0, 1}"), 7, 2, freewd=False, vary=True)
@@ -367,11 +378,11 @@ def run(ctx):
         gen_and_replay("g_del4", 5, consts(5, 2, spans="{1}", deletes=True), 6, 4, freewd=False, vary=True)
         exhaustive_n = sum(g["histories"] for g in gens)
         gen_and_replay("s_big", 7, consts(7, 3, spans="{0, 1, 2, 3}", anyfile=True, deletes=True, maxdeloff=2), 12, 5,
-                       pairwc=False, maxdel=3, simulate="num=60000", simdepth=13, vary=True)
-        gen_and_replay("s_any", 6, consts(6, 3, spans="{0, 1, 2}", anyfile=True), 10, 0, pairwc=True,
-                       simulate="num=60000", simdepth=11, vary=True)
-        ctx.notes.append("bounded-exhaustive histories: %d; simulated: %d" % (
-            exhaustive_n, sum(g["histories"] for g in gens) - exhaustive_n))
+                       pairwc=False, maxdel=3, simulate="num=4000", simdepth=13, keep=0.2, vary=True)
+        gen_and_replay("s_any", 6, consts(6, 3, spans="{0, 1, 2, 3}", anyfile=True), 10, 0, pairwc=True,
+                       simulate="num=6000", simdepth=11, keep=0.2, vary=True)
+    ctx.notes.append("bounded-exhaustive histories: %d; simulated (seeded, sampled): %d" % (
+        exhaustive_n, sum(g["histories"] for g in gens) - exhaustive_n))
 
     if CHECK_INVERTED_PRESET:
         directed_inverted(ctx, judge)
